@@ -318,7 +318,27 @@ def r11_4(ctx: Ctx):
     sn = cp.self_name()
     rets = [r for r in body_walk(cp.node) if isinstance(r, ast.Return)]
     ok = len(rets) == 1 and norm(rets[0].value).replace(" ", "") in (f"{sn}.history[-1]", f"{sn}._history[-1][-1]")
-    obs.append(ctx.ob("R11.4", cp, rets[0] if rets else cp.node, status=OK if ok else VIOLATION, detail="current_population = last generation of the history" if ok else f"current_population returns `{norm(rets[0].value) if rets else '?'}`, which is not the last recorded generation (the next metaepoch / centroid / sprout candidates would be taken from an older generation)", construct="current_population"))
+    st_cp = OK if ok else INCONCLUSIVE
+    if not ok:
+        # reverse scan for the last non-empty metaepoch: for g in reversed(self._history): if g: return g[-1]
+        loops = [n for n in cp.node.body if isinstance(n, ast.For)]
+        if len(loops) == 1 and isinstance(loops[0].target, ast.Name) and norm(loops[0].iter).replace(" ", "") in (f"reversed({sn}._history)", f"{sn}._history[::-1]") and len(loops[0].body) == 1 and isinstance(loops[0].body[0], ast.If) and not loops[0].body[0].orelse:
+            g_ = loops[0].target.id
+            iff = loops[0].body[0]
+            if norm(iff.test).replace(" ", "") in (g_, f"len({g_})>0", f"len({g_})") and len(iff.body) == 1 and isinstance(iff.body[0], ast.Return) and norm(iff.body[0].value).replace(" ", "") == f"{g_}[-1]":
+                others = [r for r in rets if r is not iff.body[0]]
+                if not others:
+                    st_cp = OK
+        # positive evidence of a wrong generation: a constant position other than the last one
+        for r in rets:
+            for x in ast.walk(r.value) if r.value is not None else []:
+                if isinstance(x, ast.Subscript) and isinstance(x.value, ast.Attribute) and x.value.attr in ("history", "_history") and not isinstance(x.slice, ast.Slice):
+                    idx = x.slice
+                    val = idx.value if isinstance(idx, ast.Constant) else (-idx.operand.value if isinstance(idx, ast.UnaryOp) and isinstance(idx.op, ast.USub) and isinstance(idx.operand, ast.Constant) else None)
+                    if isinstance(val, int) and val != -1 and st_cp != OK:
+                        st_cp = VIOLATION
+    ok = st_cp == OK
+    obs.append(ctx.ob("R11.4", cp, rets[0] if rets else cp.node, status=st_cp, detail="current_population = last generation of the history" if ok else f"current_population returns `{norm(rets[0].value) if rets else '?'}`, which is not the last recorded generation (the next metaepoch / centroid / sprout candidates would be taken from an older generation)", construct="current_population"))
     hs = h.self_name()
     rets = [r for r in body_walk(h.node) if isinstance(r, ast.Return)]
     okh = False
